@@ -85,7 +85,7 @@ Step ==
   /\ l <= Len(Rec)
   /\ l' = l + 1
   /\ LET e == Rec[l] IN
-     /\ "panic" \notin DOMAIN e
+     /\ "panic" \notin DOMAIN e /\ "inexact" \notin DOMAIN e
      /\ EventOK(e)
      /\ hcnf' = IF e.ev = "h_new" THEN e.cnf ELSE hcnf
      /\ pmA' = IF e.ev \in {"pm_new", "pm_set", "pm_unset"} THEN e.a ELSE pmA
